@@ -591,3 +591,36 @@ def ok29_operator_add(image):
     w = operator.add(image, 1)
     w[0] = 0
     return float(w.std())
+
+# ---- process-wide settings (round 6)
+import warnings
+import os
+
+def m113_seterr(image):
+    numpy.seterr(divide="ignore", invalid="ignore")
+    s = float(image.sum() / image.size)
+    numpy.seterr(divide="warn", invalid="warn")
+    return s
+
+def m114_printoptions(image):
+    numpy.set_printoptions(precision=3)
+    return float(image.std())
+
+def m115_simplefilter(image):
+    warnings.simplefilter("ignore")
+    return float(image.std())
+
+def m116_environ(image):
+    os.environ["OMP_NUM_THREADS"] = "1"
+    return float(image.std())
+
+def ok30_errstate_block(image):
+    with numpy.errstate(divide="ignore", invalid="ignore"):
+        s = float(image.sum() / image.size)
+    return s
+
+def ok31_catch_warnings(image):
+    with warnings.catch_warnings():
+        warnings.simplefilter("ignore")
+        s = float(image.sum() / image.size)
+    return s
